@@ -71,13 +71,17 @@ type c05Trace struct {
 	wal      string
 	tgOfOp   map[int]int // op -> event index of the TGDATA payload write that carries it
 	tgOrder  map[int]int // event index of TGDATA payload -> ordinal
+	// wTG: op -> event index of the TGDATA payload that carries the op's WITNESS row. A timer flush
+	// can split one request over two transaction groups; the witness slot's commit order is that of
+	// the groups carrying the witness rows, not of the groups carrying the requests' first rows.
+	wTG map[int]int
 	fsyncs   []int
 	syncs    []int
 	commitID []int64
 }
 
 func analyseBg(cr *crashRun) (*c05Trace, error) {
-	c := &c05Trace{cr: cr, tgOfOp: map[int]int{}, tgOrder: map[int]int{}}
+	c := &c05Trace{cr: cr, tgOfOp: map[int]int{}, tgOrder: map[int]int{}, wTG: map[int]int{}}
 	for i, e := range cr.Events {
 		if e.Kind == crashfs.EvCreate && strings.HasSuffix(e.Path, ".walfile") && c.wal == "" {
 			c.wal = e.Path
@@ -116,6 +120,20 @@ func analyseBg(cr *crashRun) (*c05Trace, error) {
 							c.tgOfOp[op] = i
 						}
 					}
+				}
+				// the witness row of the request
+				base := 0
+				for _, p := range cr.H.Ops[op].Parts {
+					if cr.H.Buckets[p.Bucket].Sym == "W" {
+						for r := range p.Epoch {
+							var tagb [8]byte
+							binary.LittleEndian.PutUint64(tagb[:], uint64(wl.Tag(op, base+r)))
+							if bytes.Contains(e.Data, tagb[:]) {
+								c.wTG[op] = i
+							}
+						}
+					}
+					base += len(p.Epoch)
 				}
 			}
 		}
@@ -372,7 +390,7 @@ func (c *c05Trace) checkRecoveryVariant(k int, v *crashfs.Variant, rec *hx.Rec) 
 			continue
 		}
 		if cr.H.Buckets[w.bucket].Sym == "W" {
-			if tgi, ok := c.tgOfOp[w.op]; ok && c.tgOrder[tgi] > maxAckTG {
+			if tgi, ok := c.wTG[w.op]; ok && c.tgOrder[tgi] > maxAckTG {
 				maxAckTG, maxAckOp = c.tgOrder[tgi], w.op
 			}
 			continue
@@ -401,7 +419,7 @@ func (c *c05Trace) checkRecoveryVariant(k int, v *crashfs.Variant, rec *hx.Rec) 
 			return fmt.Errorf("witness slot empty although op %d writing it was acknowledged", maxAckOp)
 		}
 		wop := int(witness>>20) - 1
-		tgi, ok := c.tgOfOp[wop]
+		tgi, ok := c.wTG[wop]
 		if !ok || !cr.issued(wop, k) {
 			return fmt.Errorf("witness slot holds tag %d of op %d, which was not issued / is in no transaction group", witness, wop)
 		}
